@@ -1786,17 +1786,43 @@ pub fn main() {
                     (format!("restricted split trees {}", name), s, fl)
                 }));
             }
+            // the public parallel iterator over restricted views on real pools
+            for (k, (name, f)) in storage_kinds().into_iter().enumerate() {
+                let bm: Vec<u32> = if thorough { all_b.clone() } else if k % 6 == 0 { some_b.clone() } else { continue };
+                jobs.push(Box::new(move || {
+                    let (s, fl) = f(&SweepCfg { mode: Mode::C07Real, u: U.to_vec(), bmasks: bm.clone(), tree_cap: 0 });
+                    let fl = fl.into_iter().filter(|x| x.form.contains("restrict")).collect();
+                    (format!("restricted real pools {}", name), s, fl)
+                }));
+            }
+            if thorough {
+                // a larger universe (three indices around each layer boundary): every content x every
+                // subset of items written
+                let u10: Vec<u32> = vec![0, 1, 63, 64, 65, 4095, 4096, 4097, 262143, 262144];
+                for (name, f) in storage_kinds() {
+                    let u10 = u10.clone();
+                    jobs.push(Box::new(move || {
+                        let (s, fl) = f(&SweepCfg { mode: Mode::C13, u: u10.clone(), bmasks: (0..1024).collect(), tree_cap: 0 });
+                        (format!("restricted (10-index universe) {}", name), s, fl)
+                    }));
+                }
+            }
         }
         "C16" => {
-            let n = if thorough { 5 } else { 4 };
+            let n = if thorough { 6 } else { 4 };
+            // indices around the upper layer boundaries
+            jobs.push(Box::new(move || {
+                let (s, fl) = sweep_changeset(n - 1, &[4095, 4096, 262144], &[0, 1, 4095, 4096, 4097, 262143, 262144]);
+                (format!("changeset sequences up to length {} over indices 4095,4096,262144", n - 1), s, fl)
+            }));
             jobs.push(Box::new(move || {
                 let (s, fl) = sweep_changeset(n, &[0, 63, 64], &[0, 1, 63, 64, 65, 66]);
                 (format!("changeset sequences up to length {} over indices 0,63,64", n), s, fl)
             }));
             // compact indices: dense slot numbers and entity indices coincide
             jobs.push(Box::new(move || {
-                let (s, fl) = sweep_changeset(n.min(4), &[0, 1, 2, 3], &[0, 1, 2, 3]);
-                ("changeset sequences up to length 4 over indices 0..3".to_string(), s, fl)
+                let (s, fl) = sweep_changeset(n.min(5), &[0, 1, 2, 3], &[0, 1, 2, 3]);
+                (format!("changeset sequences up to length {} over indices 0..3", n.min(5)), s, fl)
             }));
             jobs.push(Box::new(|| {
                 let (s, fl) = sweep_changeset_long();
